@@ -179,8 +179,7 @@ impl BigInt {
 //@ extract src/bigint.rs :: impl BigInt :: fn to_biguint props=C19
     pub fn to_biguint(&self) -> /*+*/(r: /*-*/Option<BigUint>/*+*/)/*-*/
 //+{
-        requires self.wfi()
-        ensures r is Some <==> self.iv() >= 0, r is Some ==> r.unwrap().wf() && r.unwrap().v() as int == self.iv()
+        ensures self.wfi() ==> (r is Some <==> self.iv() >= 0), self.wfi() && r is Some ==> r.unwrap().wf() && r.unwrap().v() as int == self.iv()
 //+}
     {
 //+{
